@@ -1,12 +1,12 @@
 SPECIFICATION Spec
 CONSTANTS
-  K = 4
-  MaxLeaves = 10
-  MaxDepth = 3
-  MaxN = 4
+  K = 2
+  MaxLeaves = 6
+  MaxDepth = 5
+  MaxN = 3
   ScratchSize = "code"
   Finished = "last"
-  GrowLoop = "while"
+  GrowLoop = "if"
   EarlyExit = TRUE
 INVARIANT CodesOk
 INVARIANT Refines
